@@ -746,7 +746,7 @@ def _handle(req: tuple) -> Any:
         thorough = req[1]
         hist = list(corpus())
         hist += fault_sweeps(r, 60 if thorough else 8)
-        for _ in range(2500 if thorough else 170):
+        for _ in range(2000 if thorough else 170):
             hist.append(gen_history(r, 10 if thorough else 6))
         return hist
     if req[0] == "rawrender":
@@ -1637,15 +1637,19 @@ def run_fs_scenario(sc: dict[str, Any]) -> list[dict[str, Any]]:
 
 
 def fs_case(step: dict[str, Any]) -> tuple[list[tuple], list[dict[str, Any]]]:
-    """The model's answer for the render on fresh objects with these inputs."""
+    """The model's answer for the render on fresh objects with these inputs.
+    Whether the fetch itself succeeds is decided by fresh objects, not by what
+    the shared loader did (a stale cache may hand out an object for a file that
+    no longer parses)."""
     ops: list[tuple] = [("env", False, False, [], sorted(step["files"].items()), [])]
     ops += [("tick",)] * step["tick"]
     ops += [("gt", 1, step["name"], [], False), ("r", ("own", 0), step["data"], None, None, False)]
     obs = step["obs"]
-    if step["fetch_failed"] or step["name"] not in step["files"]:
-        exp = [("unit",)] * (1 + step["tick"]) + [obs, ("bad",)]
-    else:
+    fetched = run_history(ops[:-1])[-1]["obs"]
+    if fetched[0] == "own":
         exp = [("unit",)] * (1 + step["tick"]) + [("own", 0), obs]
+    else:
+        exp = [("unit",)] * (1 + step["tick"]) + [obs, ("bad",)]
     return ops, [{"obs": o, "snap": [[], []]} for o in exp]
 
 
@@ -2388,7 +2392,7 @@ def _main(chk: C.Check, pristine: Pristine) -> None:
 
     # partials edited on disk behind a CachingFileSystemLoader(auto_reload=True)
     n_fs = n_fs_edits_seen = n_fs_back = 0
-    for _ in range(400 if thorough else 18):
+    for _ in range(300 if thorough else 18):
         sc = fs_scenario(r)
         last_by_name: dict[str, tuple] = {}
         for st in run_fs_scenario(sc):
@@ -2447,7 +2451,7 @@ def _main(chk: C.Check, pristine: Pristine) -> None:
 
     # overlapping async loads on a cold caching loader, different globals per task
     n_conc = n_conc_collide = 0
-    for _ in range(400 if thorough else 28):
+    for _ in range(300 if thorough else 28):
         sc = conc_scenario(r)
         res = run_conc_scenario(sc)
         for wi, (tasks, outs) in enumerate(zip(sc["waves"], res)):
@@ -2475,7 +2479,7 @@ def _main(chk: C.Check, pristine: Pristine) -> None:
                                          "templates": {n: src_of(p) for n, p in sc["store"]}}})
     # choice loaders whose delegates fail transiently: a faulty load fails and leaves nothing behind
     n_choice = n_choice_fired = n_choice_dup = 0
-    for _ in range(400 if thorough else 24):
+    for _ in range(300 if thorough else 24):
         sc = choice_scenario(r)
         for res in run_choice_scenario(sc):
             st, obs = res["step"], res["obs"]
